@@ -84,7 +84,7 @@ TEXT = {
              "probes inject seeded delays and the number of distinct probe-event interleavings observed is reported. The model-checked interleaving "
              "clause of the quantifier is another technique and is not claimed. Further families: caller-chosen ids re-registered inside the "
              "reader's match/deliver window (probe gate), pushes in every subscriber state and with notify bytes other than 1, runs of up to 1000 "
-             "unmatched frames, batches cut by connection loss, ids around locally abandoned requests (stage ids). Found and fixed D8.",
+             "unmatched frames, batches cut by connection loss, ids around locally abandoned requests (stage ids). Found and fixed D8. Rounds 7-8: trickled responses (pauses up to 1.4 s inside a frame, frames embedded in bodies, WebSocket continuation fragments), unusual but accepted header fields in interleaved frames, long histories after calls that ended unusually (ids crossing 2^8 and 2^16).",
         note="Interleavings are sampled, not enumerated; trusts the fake server and oracle in harness/src/c04*.rs.",
         ref="DESIGN.md §4 C04"),
     "C07": dict(
@@ -114,7 +114,7 @@ TEXT = {
              "pipelined sequences (<= 64 requests mixing versions, query formats, UTF-8/non-UTF-8 queries, known/unknown paths, body formats, "
              "well-formed/malformed bodies, notify 0/1) with unique ids and tokens and then read to end-of-stream, so absent frames are observed. "
              "Oracle layers: structural exactly-once/echo/notify-silence/inline-order from the event log, error classes derived from how each "
-             "request was generated, and a differential over (ec, formats, query, body) across the four transports.",
+             "request was generated, and a differential over (ec, formats, query, body) across the four transports. Rounds 7-8: pipelines against WebSocket servers with outbound queues of 1-8 and peers that write everything before reading (arrival order under back-pressure); paced traffic on read-timeout servers; re-entrant handlers with a bounded-progress verdict.",
         note="Statement leaves the code for an undecodable body (4 or 5) and the precedence of simultaneous reject conditions open: both accepted, pinned only differentially.",
         ref="DESIGN.md §4 C03"),
     "C19": dict(
@@ -133,7 +133,7 @@ TEXT = {
              "boundary residue x depth 0..8 x {none, zstd}; the concatenation (decompressed by the harness) must equal independently computed "
              "bytes, exactly one final chunk carries the end marker, empty payloads are one empty final chunk, next after end/cancel/failure is an "
              "error and a failing producer never yields an end marker; the blocking, async and WebSocket library pullers are compared on the same "
-             "grid with seeded producer/consumer delays. valgrind memcheck runs a reduced grid in the thorough tier (zstd C code).",
+             "grid with seeded producer/consumer delays. valgrind memcheck runs a reduced grid in the thorough tier (zstd C code). Round 7: same-thread pull histories (every way an earlier pull can end, then complete pulls judged byte for byte) and 1-1000 (thorough 5000) concurrently open sessions next to slow healthy transfers.",
         note="AsyncServer is excluded (documented as unsupported for SVS). zstd boundary targeting is exact only for incompressible payloads.",
         ref="DESIGN.md §4 C09"),
     "C10": dict(
@@ -143,7 +143,7 @@ TEXT = {
              "destination absent / existing / existing+stale temp; child processes are killed (SIGKILL) at the n-th hit of every crash point of the "
              "write-flush-sync-rename path; successful and failing pulls are traced with strace and checked against write* -> fsync -> rename "
              "(no write after sync, no rename on failure); strace's inject= provides hook-independent kills. Oracle: destination byte-identical to "
-             "its prior state or exactly the complete content, no temp file after an in-process failure, value pulls never Ok on truncation.",
+             "its prior state or exactly the complete content, no temp file after an in-process failure, value pulls never Ok on truncation. Rounds 7-8: trailer lengths 0-64 and 'an Ok pull consulted the verifier', zero-run content classes, blocking pulls judged behind a failed pull on the same thread, long stale temps.",
         note="Power-loss durability is out of reach (a process kill keeps the page cache); fsync ordering is decided by the strace specification only. strace unavailable => that stage is inconclusive.",
         ref="DESIGN.md §4 C10"),
     "C05": dict(
@@ -154,7 +154,7 @@ TEXT = {
              "every interruption the peer drains and FURTHER traffic is issued. Oracle: the stream must be whole frames plus at most one strict "
              "prefix of one frame with nothing after it, every frame byte-equal to one submitted message (bodies are a function of token and "
              "offset), sends that reported success are whole on the wire, each WebSocket message is exactly one frame and the WebSocket stream itself parses. "
-             "Stage proxy: the upstream byte stream of proxy_connection fed with messages that are not exactly one frame. Found and fixed D3, D4, D5.",
+             "Stage proxy: the upstream byte stream of proxy_connection fed with messages that are not exactly one frame. Found and fixed D3, D4, D5. Rounds 7-8: the batch entry points as senders (interrupted item at every position, batches after abandoned sends), blocking *_with_timeout calls as senders against a stalled peer.",
         note="WebSocket streams are observed as messages; client send buffers autotune (fault payloads sized 12-32 MiB for a 4 MiB tcp_wmem).",
         ref="DESIGN.md §4 C05"),
     "C15": dict(
@@ -165,7 +165,7 @@ TEXT = {
              "(serve_listener, graceful drain, accept+serve_connection(_with_cancel), adopt_upgraded) plus failed handshakes, each with 1..32 "
              "concurrent connections and bystanders. The oracle checks exactly-once disconnect after connect, no callbacks for failed handshakes, "
              "registry/alias presence windows by sequence number, connect-queued notifies before any response on the wire, and cancellation observed by "
-             "parked handlers; liveness is bounded progress (15 s, heartbeat-gated).",
+             "parked handlers; liveness is bounded progress (15 s, heartbeat-gated). Rounds 7-8: connections arriving after the embedder's token was cancelled, token-like alias keys up to 70 KB, the cancelled() future polled before the cancel must be woken, late alias calls for departed peers.",
         note="96 cells are meaningless combinations and are skipped with a counted reason. Inline handlers cannot observe a client-side disconnect (reader blocked).",
         ref="DESIGN.md §4 C15"),
     "C16": dict(
@@ -184,7 +184,7 @@ TEXT = {
              "proxy-forwarded response, client request, client notify, with their body-format variants). Raw peers log every binary message size; "
              "no message above the limit may be observed, oversized responses are replaced by code 9 with the same id, oversized notifies are "
              "dropped and reported, oversized client messages fail locally with MessageTooLarge and nothing is sent, the connection serves a "
-             "follow-up call, and messages at or below the limit arrive byte-identical to the spec frame.",
+             "follow-up call, and messages at or below the limit arrive byte-identical to the spec frame. Rounds 7-8: proxies whose own inbound accept limits differ from the assumed peer limit, request ids at the edges of the range, local refusal of an oversized client message while deliverable sends are parked on a non-reading peer.",
         note="WasmClient is out of scope (wasm32 only).",
         ref="DESIGN.md §4 C17"),
     "C06": dict(
@@ -197,7 +197,7 @@ TEXT = {
              "within a 15 s heartbeat-gated window, pending table exactly empty, late responses delivered to nobody, the next call on a healthy "
              "client gets its own token, the notify subscriber sees end-of-stream, no thread panics. Stalled-writer family: the fault arrives while "
              "another task's large send is stalled on a peer that stopped reading and then lingers (found and fixed D9; one recorded known finding K1). "
-             "Batch form of the timeout windows with more requests than the worker pool.",
+             "Batch form of the timeout windows with more requests than the worker pool. Rounds 7-8: hostile content (long, non-ASCII at every alignment, not UTF-8) in late / unknown-id / duplicate / pushed frames, malformed headers at the integer extremes, the blocking client's own write timeout as the fault.",
         note="Drain-before-shutdown style reorderings are caught probabilistically (repeated held-lock cells). Cancelling mid-write of a large body is C05's domain.",
         ref="DESIGN.md §4 C06"),
 }
